@@ -1,5 +1,5 @@
 use crate::sync::{Condvar, Mutex};
-use crate::tree_store::TransactionalMemory;
+use crate::tree_store::{BtreeHeader, TransactionalMemory};
 use crate::{Key, Result, Savepoint, TypeName, Value};
 use alloc::collections::BTreeSet;
 use alloc::collections::btree_map::BTreeMap;
@@ -279,19 +279,22 @@ impl TransactionTracker {
         state.persistent_savepoints.insert(id);
     }
 
+    // Registers a reader of the latest commit and returns that commit's id together with its data
+    // root. Both are read under one lock: a commit landing in between would otherwise leave the
+    // reader registered under the previous id while it reads the new root
     pub(crate) fn register_read_transaction(
         &self,
         mem: &TransactionalMemory,
-    ) -> Result<TransactionId> {
+    ) -> Result<(TransactionId, Option<BtreeHeader>)> {
         let mut state = self.state.lock()?;
-        let id = mem.get_last_committed_transaction_id()?;
+        let (id, root) = mem.get_last_committed_snapshot()?;
         state
             .live_read_transactions
             .entry(id)
             .and_modify(|x| *x += 1)
             .or_insert(1);
 
-        Ok(id)
+        Ok((id, root))
     }
 
     pub(crate) fn deallocate_read_transaction(&self, id: TransactionId) {
